@@ -77,6 +77,14 @@ struct World {
     std::map<std::string, std::string> rres;
     std::map<std::string, Rec> recs;
     std::map<std::string, std::unique_ptr<CbAwaiter>> cbs;
+    // API-form rotation: the same specification action is reached through different public entry points that are
+    // documented as equivalent (promise(x) / set_value(x) / set_exception(e) / unhandled_exception();
+    // subscribe(awaiter*) / co_awaiter::await_suspend(resume_fn, void*)); form = header "form" + index of the thread
+    int form = 0;
+    struct FnCtx { World *world; Rec *rec; };
+    std::map<std::string, std::unique_ptr<cocls::co_awaiter<cocls::future<int>>>> fnaw;   // cb waiters, form 1
+    std::map<std::string, FnCtx> fnctx;
+    std::map<std::string, cocls::awaiter *> cbnode;   // the awaiter node of every cb waiter (either form)
     std::map<std::uint64_t, std::string> node_of;   // awaiter node address -> waiter
     std::atomic<long> allocs{0};
     vsched sched;
@@ -102,6 +110,14 @@ static void read_result(World &w, Rec &r) {
         r.tag = "notready";
         r.payload = "notready";
     }
+}
+
+static cocls::suspend_point<void> fn_fire(cocls::awaiter *, void *ctx) noexcept {
+    auto c = static_cast<World::FnCtx *>(ctx);
+    read_result(*c->world, *c->rec);
+    c->rec->resumes++;
+    c->rec->done = true;
+    return {};
 }
 
 static cocls::async<void> co_waiter(World &w, Rec &r) {
@@ -231,7 +247,7 @@ static J project(World &w) {
     // the callback awaiters are harness-owned objects that outlive their subscription: their _next link is
     // observable at any time (a reusable awaiter must be left with a clean link after release / refusal)
     J cbnext = J::map();
-    for (auto &kv : w.cbs) {
+    for (auto &kv : w.cbnode) {
         cocls::awaiter *n = kv.second->_next;
         std::string nm = "null";
         if (n == &cocls::awaiter::disabled) nm = "ready";
@@ -302,6 +318,7 @@ static void run_one(const Scenario &sc, Reporter &rep, Explore *ex) {
     for (auto &kv : sc.hdr.at("R").m) { w.rkind[kv.first] = kv.second.s; w.rres[kv.first] = "none"; }
     for (auto &kv : sc.hdr.at("W").m) { w.wkind[kv.first] = kv.second.s; w.recs[kv.first]; }
     w.fine = sc.hdr.at("fine").as_bool(false);
+    w.form = (int) sc.hdr.at("form").as_int(0) + (ex ? (int) (ex->next() % 6) : 0);
     w.sched.yield_after = w.fine;
     w.p = new cocls::promise<int>(w.fut.get_promise());
     w.p_owner_addr = &((*w.p).*PProbe::owner_mp());
@@ -328,21 +345,28 @@ static void run_one(const Scenario &sc, Reporter &rep, Explore *ex) {
         std::string name = kv.first, kind = kv.second;
         int who = atoi(name.c_str() + 1);
         World *pw = &w;
-        w.tid[name] = w.sched.spawn([pw, name, kind, who] {
+        int form = w.form + who;
+        w.tid[name] = w.sched.spawn([pw, name, kind, who, form] {
             World &w = *pw;
             warm_thread();
             if (kind == "val") {
                 bool b;
-                { lib_scope s; b = (*w.p)(who); }
+                { lib_scope s; if (form % 2 == 0) b = (*w.p)(who); else b = w.p->set_value(who); }
                 w.rres[name] = b ? "true" : "false";
             } else if (kind == "exc") {
-                auto e = std::make_exception_ptr(TestExc(who));
                 bool b;
-                { lib_scope s; b = (*w.p)(e); }
+                if (form % 3 == 2) {
+                    // the form a coroutine's promise_type uses: inside a handler
+                    try { throw TestExc(who); } catch (...) { lib_scope s; b = w.p->unhandled_exception(); }
+                } else {
+                    auto e = std::make_exception_ptr(TestExc(who));
+                    lib_scope s;
+                    if (form % 3 == 0) b = (*w.p)(e); else b = w.p->set_exception(e);
+                }
                 w.rres[name] = b ? "true" : "false";
             } else if (kind == "drop") {
                 bool b;
-                { lib_scope s; b = (*w.p)(cocls::drop); }
+                { lib_scope s; if (form % 2 == 0) b = (*w.p)(cocls::drop); else b = w.p->set_value(cocls::drop); }
                 w.rres[name] = b ? "true" : "false";
             } else if (kind == "mdes") {
                 lib_scope s;
@@ -367,12 +391,20 @@ static void run_one(const Scenario &sc, Reporter &rep, Explore *ex) {
     for (auto &kv : w.wkind) {
         std::string name = kv.first, kind = kv.second;
         World *pw = &w;
+        int form = w.form + atoi(name.c_str() + 1);
         if (kind == "cb") {
-            w.cbs[name].reset(new CbAwaiter());
-            w.cbs[name]->world = pw;
-            w.cbs[name]->rec = &w.recs[name];
+            if (form % 2 == 0) {
+                w.cbs[name].reset(new CbAwaiter());
+                w.cbs[name]->world = pw;
+                w.cbs[name]->rec = &w.recs[name];
+                w.cbnode[name] = w.cbs[name].get();
+            } else {
+                w.fnaw[name].reset(new cocls::co_awaiter<cocls::future<int>>(w.fut.operator co_await()));
+                w.fnctx[name] = World::FnCtx{pw, &w.recs[name]};
+                w.cbnode[name] = w.fnaw[name].get();
+            }
         }
-        w.tid[name] = w.sched.spawn([pw, name, kind] {
+        w.tid[name] = w.sched.spawn([pw, name, kind, form] {
             World &w = *pw;
             warm_thread();
             Rec &r = w.recs[name];
@@ -394,8 +426,14 @@ static void run_one(const Scenario &sc, Reporter &rep, Explore *ex) {
                 r.done = true;
             } else if (kind == "cb") {
                 lib_scope s;
-                CbAwaiter *cb = w.cbs[name].get();
-                if (!w.fut.operator co_await().subscribe(cb)) cb->resume();
+                if (form % 2 == 0) {
+                    CbAwaiter *cb = w.cbs[name].get();
+                    if (!w.fut.operator co_await().subscribe(cb)) cb->resume();
+                } else {
+                    // suspend-with-function form (used by parallel(), immediately(), co_await pool(x))
+                    auto *aw = w.fnaw[name].get();
+                    if (!aw->await_suspend(&fn_fire, &w.fnctx[name])) fn_fire(aw, &w.fnctx[name]);
+                }
             }
             w.allocs += lib_allocs; lib_allocs = 0;
         });
